@@ -1,9 +1,9 @@
 //! C04 — freshness: accepted iff now − 15 min ≤ t ≤ now + 15 min (bounds inclusive), by instant, not by text.
 
 use crate::exec::{execute, Outcome};
-use crate::gen::{gen_logical, make_case, render_ts, GenOpts, Logical, Overrides, Speller};
+use crate::gen::{gen_cfg, gen_logical, make_case, render_ts, GenOpts, Logical, Overrides, Speller};
 use crate::json::J;
-use crate::model::{Cfg, Reqs};
+use crate::model::{Case, Cfg, Reqs};
 use crate::mon::{judge, violation, Agreement};
 use crate::prng::Rng;
 use crate::rm::decide::{Carrier, Stage};
@@ -470,6 +470,123 @@ fn direct_route(_seed: u64, _shard: u64, _n: u64) -> Tally {
     t
 }
 
+/// A presigned form POST (folding on) with `X-Amz-Date` in the URL and once more, another instant, in the body: the URL's
+/// copy is the first value and therefore the request's instant. One of the two instants lies inside the window, the other
+/// outside; the request is signed as received for the URL's instant.
+fn url_date_and_body_date(seed: u64, shard: u64, n: u64) -> Tally {
+    let mut t = Tally::new();
+    const PH: &str = crate::gen::SIG_PLACEHOLDER;
+    for i in 0..n {
+        let mut r = Rng::keyed(seed, "C04", "url-vs-body-date", shard, i);
+        let mut cfg = gen_cfg(&mut r);
+        cfg.fold = true;
+        cfg.s3 = r.chance(1, 4);
+        let o = GenOpts {
+            carrier: Some(Carrier::Query),
+            allow_form: false,
+            other_carrier_decoys: false,
+            ..Default::default()
+        };
+        let mut l = gen_logical(&mut r, &cfg, &o);
+        l.method = "POST".into();
+        l.form_pairs = Some(vec![(b"Action".to_vec(), b"ListUsers".to_vec())]);
+        l.body.clear();
+        l.content_type = Some(b"application/x-www-form-urlencoded".to_vec());
+        l.t.ns = 0;
+        let url_fresh = r.coin();
+        let far = *r.pick(&[901i64, 3600, 86_400, -901, -3600, -86_400]);
+        // server clock: at the URL's instant (fresh) or `far` seconds away from it (stale / post-dated)
+        let now = if url_fresh {
+            l.t.plus_s(r.range(-600, 600))
+        } else {
+            l.t.plus_s(far)
+        };
+        // the body's copy: the other kind
+        let t_body = if url_fresh {
+            now.plus_s(far)
+        } else {
+            now.plus_s(r.range(-600, 600))
+        };
+        let mut sr = Rng::keyed(seed, "C04", "url-vs-body-date-spell", shard, i);
+        let mut sp = Speller {
+            r: &mut sr,
+            level: 0,
+        };
+        let ov = Overrides {
+            signature: Some(PH.to_string()),
+            ..Default::default()
+        };
+        let (mut wire, facts) = crate::gen::render(&l, &cfg, &mut sp, &ov);
+        let piece = format!("X-Amz-Date={}", t_body.compact());
+        if r.coin() {
+            wire.body.push(b'&');
+            wire.body.extend_from_slice(piece.as_bytes());
+        } else {
+            let mut b = piece.into_bytes();
+            b.push(b'&');
+            b.extend_from_slice(&wire.body);
+            wire.body = b;
+        }
+        let Ok(req) = crate::exec::build_request(&wire) else {
+            t.count("not_built_by_http");
+            continue;
+        };
+        let view = crate::exec::view_of(&req);
+        let mut c2 = cfg.clone();
+        c2.now = now;
+        let Some(sig) = crate::rm::decide::sign_as(&view, &c2, &facts.credential, &l.signed, l.t, &l.secret) else {
+            t.count("url_vs_body_date/unsignable");
+            continue;
+        };
+        let (f, tb) = (PH.as_bytes(), sig.as_bytes());
+        let mut k = 0;
+        while k + f.len() <= wire.uri.len() {
+            if &wire.uri[k..k + f.len()] == f {
+                wire.uri.splice(k..k + f.len(), tb.iter().copied());
+                k += tb.len();
+            } else {
+                k += 1;
+            }
+        }
+        let case = Case {
+            wire,
+            cfg: c2,
+            script: crate::model::Script::derive(&l.secret),
+        };
+        let rec = execute(&case);
+        t.eval();
+        if matches!(rec.outcome, Outcome::NotBuilt(_)) {
+            t.count("not_built_by_http");
+            continue;
+        }
+        let Some(j) = judge(&case, &rec) else {
+            continue;
+        };
+        match &j.agreement {
+            Agreement::Silent(w) => t.count(&format!("silent: {}", w)),
+            Agreement::Mismatch {
+                detail,
+                known,
+            } => t.violate(violation(
+                "window",
+                &format!("url-vs-body-date/{}", if url_fresh { "url-fresh" } else { "url-stale" }),
+                format!("presigned form with X-Amz-Date {} in the URL ({}) and {} in the body: {}", l.t.compact(), if url_fresh { "inside the window" } else { "outside the window" }, t_body.compact(), detail),
+                &case,
+                *known,
+            )),
+            Agreement::Agree => {
+                if url_fresh && rec.outcome.is_ok() {
+                    t.count("url_date_fresh_body_date_stale_accepted");
+                } else if !url_fresh && !rec.outcome.is_ok() && rec.calls() == 0 {
+                    t.count("url_date_stale_body_date_fresh_refused_before_key_lookup");
+                }
+                t.nontrivial(case.hash());
+            }
+        }
+    }
+    t
+}
+
 pub fn run(tier: Tier) -> i32 {
     let mut ctx = Ctx::new("C04", tier);
     let pre = preflight();
@@ -478,6 +595,8 @@ pub fn run(tier: Tier) -> i32 {
     let mut tally = ctx.par(shards, |s| shard(seed, s, shards, tier));
     let d = ctx.par(8, |s| direct_route(seed, s, tier.n(1500, 60_000)));
     tally.merge(d);
+    let ub = ctx.par(8, |s| url_date_and_body_date(seed, s, tier.n(400, 15_000)));
+    tally.merge(ub);
     if let Err(e) = &pre {
         tally.inconclusive.push(e.clone());
     }
@@ -490,6 +609,8 @@ pub fn run(tier: Tier) -> i32 {
             }
         }
     }
+    ctx.gate("presigned forms with a fresh X-Amz-Date in the URL and a stale one in the body, accepted", tally.get("url_date_fresh_body_date_stale_accepted"), tier.n(1000, 40_000));
+    ctx.gate("presigned forms with a stale X-Amz-Date in the URL and a fresh one in the body, refused before the key lookup", tally.get("url_date_stale_body_date_fresh_refused_before_key_lookup"), tier.n(1000, 40_000));
     ctx.gate("bound-adjacent instants decided correctly for every server instant (cells)", ok_cells, servers.len() as u64 * 6);
     ctx.gate("random nanosecond-resolution probes around the bounds", tally.get("random/inside") + tally.get("random/expired") + tally.get("random/not-yet"), tier.n(40_000, 4_000_000));
     ctx.gate("grid probes inside", tally.get("grid/full/inside") + tally.get("grid/bounds/inside"), tier.n(5_000, 100_000));
